@@ -1713,6 +1713,8 @@ def main():
     rs2coq_links.main(os.path.dirname(dst))
     import rs2coq_loop           # part 10: the two enforcement loops -> Gen/EnforceGen.v
     rs2coq_loop.main(os.path.dirname(dst))
+    import rs2coq_adapters       # part 9: the bundled adapters -> Gen/AdaptersGen.v
+    rs2coq_adapters.main(os.path.dirname(dst))
     import rs2coq_rm             # part 11: DefaultRoleManager + bounded BFS -> Gen/RoleManagerGen.v
     rs2coq_rm.main(os.path.dirname(dst))
 
